@@ -936,6 +936,224 @@ pub open spec fn events_ok(old: &SlotState, fin: &SlotState, evs: Seq<PoolEvent>
     &&& (old.sent_safe_to_skip ==> fin.sent_safe_to_skip)
 }
 
+impl Cert {
+    pub open spec fn spec_block_hash(&self) -> Option<BlockHash> {
+        match *self {
+            Cert::Notar(x) => Some(x.block_hash),
+            Cert::NotarFallback(x) => Some(x.block_hash),
+            Cert::FastFinal(x) => Some(x.block_hash),
+            Cert::Skip(_) => None,
+            Cert::Final(_) => None,
+        }
+    }
+    pub open spec fn spec_slot(&self) -> Slot {
+        match *self {
+            Cert::Notar(x) => x.slot,
+            Cert::NotarFallback(x) => x.slot,
+            Cert::FastFinal(x) => x.slot,
+            Cert::Skip(x) => x.slot,
+            Cert::Final(x) => x.slot,
+        }
+    }
+}
+
+impl SlotState {
+    pub proof fn lemma_notar_cert_votes(&self, h: BlockHash, votes: Seq<NotarVote>)
+        requires
+            self.wf(),
+            votes.len() == idx_where(self.votes.notar@.len() as int, self.votes.p_notar(h)).len(),
+            forall|i: int| 0 <= i < votes.len() ==> Some(#[trigger] votes[i]) == self.votes.notar@[idx_where(self.votes.notar@.len() as int, self.votes.p_notar(h))[i]],
+        ensures
+            distinct_in_range(votes, nv_signer(), self.nv()),
+            signers_of(votes, nv_signer()) == set_of(self.nv(), self.votes.p_notar(h)),
+            forall|i: int| 0 <= i < votes.len() ==> (#[trigger] votes[i]).slot == self.slot && votes[i].block_hash == h,
+            self.sum(self.votes.p_notar(h)) > 0 ==> votes.len() > 0,
+    {
+        let n = self.nv();
+        let p = self.votes.p_notar(h);
+        lemma_idx_where(n, p);
+        lemma_votes_from_idx(n, p, |v: int| self.votes.notar@[v]->0, votes, nv_signer());
+        if self.sum(p) > 0 { lemma_positive_sum_nonempty(self.stakes(), n, p); }
+    }
+
+    pub proof fn lemma_nf_cert_votes(&self, h: BlockHash, notar_votes: Seq<NotarVote>, nf_votes: Seq<NotarFallbackVote>)
+        requires
+            self.wf(),
+            notar_votes.len() == idx_where(self.votes.notar@.len() as int, self.votes.p_notar(h)).len(),
+            forall|i: int| 0 <= i < notar_votes.len() ==> Some(#[trigger] notar_votes[i]) == self.votes.notar@[idx_where(self.votes.notar@.len() as int, self.votes.p_notar(h))[i]],
+            nf_votes.len() == idx_where(self.votes.notar_fallback@.len() as int, self.votes.p_nf(h)).len(),
+            forall|i: int| 0 <= i < nf_votes.len() ==> #[trigger] nf_votes[i] == self.votes.notar_fallback@[idx_where(self.votes.notar_fallback@.len() as int, self.votes.p_nf(h))[i]]@[h],
+        ensures
+            distinct_in_range(notar_votes, nv_signer(), self.nv()),
+            distinct_in_range(nf_votes, nfv_signer(), self.nv()),
+            signers_of(notar_votes, nv_signer()) == set_of(self.nv(), self.votes.p_notar(h)),
+            signers_of(nf_votes, nfv_signer()) == set_of(self.nv(), self.votes.p_nf(h)),
+            forall|i: int| 0 <= i < notar_votes.len() ==> (#[trigger] notar_votes[i]).slot == self.slot && notar_votes[i].block_hash == h,
+            forall|i: int| 0 <= i < nf_votes.len() ==> (#[trigger] nf_votes[i]).slot == self.slot && nf_votes[i].block_hash == h,
+            self.sum(self.votes.p_notar(h)) + self.sum(self.votes.p_nf(h)) > 0 ==> notar_votes.len() + nf_votes.len() > 0,
+    {
+        let n = self.nv();
+        self.lemma_notar_cert_votes(h, notar_votes);
+        let p = self.votes.p_nf(h);
+        lemma_idx_where(n, p);
+        lemma_votes_from_idx(n, p, |v: int| self.votes.notar_fallback@[v]@[h], nf_votes, nfv_signer());
+        self.lemma_stakes_nonneg();
+        lemma_sum_nonneg(self.stakes(), n, self.votes.p_notar(h));
+        lemma_sum_nonneg(self.stakes(), n, p);
+        if self.sum(p) > 0 { lemma_positive_sum_nonempty(self.stakes(), n, p); }
+    }
+}
+
+// =============================================================== storing an admitted vote (PROVED)
+pub open spec fn vv_add(s: VV, k: VoteKind) -> VV {
+    match k {
+        VoteKind::Notar(h) => VV { notar: Some(h), ..s },
+        VoteKind::NotarFallback(h) => VV { nf: s.nf.insert(h), ..s },
+        VoteKind::Skip => VV { skip: true, ..s },
+        VoteKind::SkipFallback => VV { skip_fb: true, ..s },
+        VoteKind::Final => VV { fin: true, ..s },
+    }
+}
+
+impl SlotState {
+    // a vote the pool may hand to add_vote: known signer, this slot, neither slashable nor a repeat
+    pub open spec fn admissible(&self, vote: Vote) -> bool {
+        let v = vote.spec_signer().0 as int;
+        &&& 0 <= v < self.nv()
+        &&& vote.spec_slot() == self.slot
+        &&& !conflict_exists(self.votes.vv(v), vote.spec_kind())
+        &&& !repeat_exists(self.votes.vv(v), vote.spec_kind())
+    }
+
+    pub open spec fn pend_of(vote: Vote) -> Pending {
+        let v = vote.spec_signer().0 as int;
+        match vote {
+            Vote::Notar(_) => Pending::Notar(v),
+            Vote::NotarFallback(x) => Pending::NotarFallback(v, x.block_hash),
+            Vote::Skip(_) => Pending::Skip(v),
+            Vote::SkipFallback(_) => Pending::SkipFallback(v),
+            Vote::Final(_) => Pending::Final(v),
+        }
+    }
+
+    // `post` is `pre` with exactly this vote stored at its signer's index (and, for a skip vote,
+    // notar_or_skip already incremented: that is the order in add_vote)
+    pub open spec fn stored(pre: &SlotState, post: &SlotState, vote: Vote) -> bool {
+        let v = vote.spec_signer().0 as int;
+        &&& post.epoch_info == pre.epoch_info
+        &&& post.slot == pre.slot
+        &&& post.votes.shape(pre.nv())
+        &&& match vote {
+            Vote::Notar(x) => post.votes.notar@ == pre.votes.notar@.update(v, Some(x))
+                && post.votes.notar_fallback == pre.votes.notar_fallback && post.votes.skip == pre.votes.skip
+                && post.votes.skip_fallback == pre.votes.skip_fallback && post.votes.finalize == pre.votes.finalize
+                && post.voted_stakes == pre.voted_stakes,
+            Vote::NotarFallback(x) => post.votes.notar_fallback@[v]@ == pre.votes.notar_fallback@[v]@.insert(x.block_hash, x)
+                && (forall|u: int| 0 <= u < pre.nv() && u != v ==> #[trigger] post.votes.notar_fallback@[u] == pre.votes.notar_fallback@[u])
+                && post.votes.notar == pre.votes.notar && post.votes.skip == pre.votes.skip
+                && post.votes.skip_fallback == pre.votes.skip_fallback && post.votes.finalize == pre.votes.finalize
+                && post.voted_stakes == pre.voted_stakes,
+            Vote::Skip(x) => post.votes.skip@ == pre.votes.skip@.update(v, Some(x))
+                && post.votes.notar_fallback == pre.votes.notar_fallback && post.votes.notar == pre.votes.notar
+                && post.votes.skip_fallback == pre.votes.skip_fallback && post.votes.finalize == pre.votes.finalize
+                && post.voted_stakes.notar_or_skip.0 == pre.voted_stakes.notar_or_skip.0 + pre.stakes()[v]
+                && post.voted_stakes.notar@ == pre.voted_stakes.notar@ && post.voted_stakes.notar_fallback@ == pre.voted_stakes.notar_fallback@
+                && post.voted_stakes.skip == pre.voted_stakes.skip && post.voted_stakes.skip_fallback == pre.voted_stakes.skip_fallback
+                && post.voted_stakes.finalize == pre.voted_stakes.finalize && post.voted_stakes.top_notar == pre.voted_stakes.top_notar,
+            Vote::SkipFallback(x) => post.votes.skip_fallback@ == pre.votes.skip_fallback@.update(v, Some(x))
+                && post.votes.notar_fallback == pre.votes.notar_fallback && post.votes.notar == pre.votes.notar
+                && post.votes.skip == pre.votes.skip && post.votes.finalize == pre.votes.finalize
+                && post.voted_stakes == pre.voted_stakes,
+            Vote::Final(x) => post.votes.finalize@ == pre.votes.finalize@.update(v, Some(x))
+                && post.votes.notar_fallback == pre.votes.notar_fallback && post.votes.notar == pre.votes.notar
+                && post.votes.skip == pre.votes.skip && post.votes.skip_fallback == pre.votes.skip_fallback
+                && post.voted_stakes == pre.voted_stakes,
+        }
+    }
+
+    // [C04.accepted_vote_is_stored]: afterwards the signer's accepted votes are the old ones plus this
+    // vote, every other validator's are untouched, and the counters are those of the old state with
+    // this vote pending.
+    pub proof fn lemma_wf_after_store(pre: &SlotState, post: &SlotState, vote: Vote)
+        requires
+            pre.wf(),
+            pre.admissible(vote),
+            Self::stored(pre, post, vote),
+        ensures
+            post.wf_pend(Self::pend_of(vote)),
+            post.votes.vv(vote.spec_signer().0 as int) == vv_add(pre.votes.vv(vote.spec_signer().0 as int), vote.spec_kind()),
+            forall|u: int| 0 <= u < pre.nv() && u != vote.spec_signer().0 ==> #[trigger] post.votes.vv(u) == pre.votes.vv(u),
+    {
+        let v = vote.spec_signer().0 as int;
+        let st = pre.stakes();
+        let n = pre.nv();
+        let pend = Self::pend_of(vote);
+        let none = Pending::Nothing;
+        lemma_c04_expand(pre.votes.vv(v), vote.spec_kind());
+        assert(post.votes.vv(v).nf =~= vv_add(pre.votes.vv(v), vote.spec_kind()).nf);
+        assert(post.wf_votes());
+        assert forall|h: BlockHash| #[trigger] post.sum(post.c_notar(h, pend)) == pre.sum(pre.c_notar(h, none)) by {
+            lemma_sum_ext(st, n, post.c_notar(h, pend), pre.c_notar(h, none));
+        }
+        assert forall|h: BlockHash| #[trigger] post.sum(post.c_nf(h, pend)) == pre.sum(pre.c_nf(h, none)) by {
+            lemma_sum_ext(st, n, post.c_nf(h, pend), pre.c_nf(h, none));
+        }
+        lemma_sum_ext(st, n, post.c_skip(pend), pre.c_skip(none));
+        lemma_sum_ext(st, n, post.c_skip_fb(pend), pre.c_skip_fb(none));
+        lemma_sum_ext(st, n, post.c_final(pend), pre.c_final(none));
+        if vote is Skip {
+            lemma_sum_add_one(st, n, pre.c_nos(none), post.c_nos(pend), v);
+        } else {
+            lemma_sum_ext(st, n, post.c_nos(pend), pre.c_nos(none));
+        }
+        if post.voted_stakes.top_notar.0 != 0 {
+            let g = choose|g: BlockHash| pre.sum(pre.c_notar(g, none)) == pre.voted_stakes.top_notar.0;
+            assert(post.sum(post.c_notar(g, pend)) == post.voted_stakes.top_notar.0);
+        }
+        assert forall|u: int| 0 <= u < pre.nv() && u != v implies #[trigger] post.votes.vv(u) == pre.votes.vv(u) by {
+            assert(post.votes.vv(u).nf =~= pre.votes.vv(u).nf);
+        }
+        assert(post.stakes() == st);
+        assert(forall|h: BlockHash| Self::map_stake(post.voted_stakes.notar@, h) == post.sum(post.c_notar(h, pend)));
+        assert(forall|h: BlockHash| Self::map_stake(post.voted_stakes.notar_fallback@, h) == post.sum(post.c_nf(h, pend)));
+        assert(post.voted_stakes.skip.0 == post.sum(post.c_skip(pend)));
+        assert(post.voted_stakes.skip_fallback.0 == post.sum(post.c_skip_fb(pend)));
+        assert(post.voted_stakes.finalize.0 == post.sum(post.c_final(pend)));
+        assert(post.voted_stakes.notar_or_skip.0 == post.sum(post.c_nos(pend)));
+        assert(forall|h: BlockHash| post.sum(post.c_notar(h, pend)) <= post.voted_stakes.top_notar.0);
+    }
+
+    // a skip vote's stake fits into notar_or_skip (the signer has neither notar nor skip stored)
+    pub proof fn lemma_room_for_skip_in_nos(&self, vote: Vote)
+        requires self.wf(), self.admissible(vote), vote is Skip,
+        ensures self.voted_stakes.notar_or_skip.0 + self.stakes()[vote.spec_signer().0 as int] <= self.total(), self.total() <= u64::MAX,
+    {
+        let v = vote.spec_signer().0 as int;
+        let st = self.stakes();
+        let n = self.nv();
+        lemma_c04_expand(self.votes.vv(v), vote.spec_kind());
+        self.lemma_stakes_nonneg();
+        self.lemma_bounds(Pending::Nothing);
+        let q = |u: int| self.c_nos(Pending::Nothing)(u) || u == v;
+        lemma_sum_add_one(st, n, self.c_nos(Pending::Nothing), q, v);
+        lemma_sum_mono(st, n, q, all_true());
+    }
+
+    // which certificates are due after accepting `vote` (C03 "as soon as, and only when")
+    pub open spec fn cert_due(old: &SlotState, fin: &SlotState, vote: Vote, k: CertKind) -> bool {
+        match (k, vote.spec_kind()) {
+            (CertKind::Notar, VoteKind::Notar(h)) => at_least_pct(fin.sum(fin.votes.p_notar(h)), fin.total(), 60) && old.certificates.notar is None,
+            (CertKind::FastFinal, VoteKind::Notar(h)) => at_least_pct(fin.sum(fin.votes.p_notar(h)), fin.total(), 80) && old.certificates.fast_finalize is None,
+            (CertKind::NotarFallback, VoteKind::Notar(h)) => at_least_pct(fin.sum(fin.votes.p_notar(h)) + fin.sum(fin.votes.p_nf(h)), fin.total(), 60) && !old.has_nf_cert(h),
+            (CertKind::NotarFallback, VoteKind::NotarFallback(h)) => at_least_pct(fin.sum(fin.votes.p_notar(h)) + fin.sum(fin.votes.p_nf(h)), fin.total(), 60) && !old.has_nf_cert(h),
+            (CertKind::Skip, VoteKind::Skip) => at_least_pct(fin.sum(fin.votes.p_skip()) + fin.sum(fin.votes.p_skip_fb()), fin.total(), 60) && old.certificates.skip is None,
+            (CertKind::Skip, VoteKind::SkipFallback) => at_least_pct(fin.sum(fin.votes.p_skip()) + fin.sum(fin.votes.p_skip_fb()), fin.total(), 60) && old.certificates.skip is None,
+            (CertKind::Final, VoteKind::Final) => at_least_pct(fin.sum(fin.votes.p_final()), fin.total(), 60) && old.certificates.finalize is None,
+            _ => false,
+        }
+    }
+}
+
 pub mod code {
 use super::*;
 broadcast use super::axiom_DoubleMerkleRoot_obeys_cmp_laws;
@@ -1063,6 +1281,7 @@ ensures
             && old(self).certificates.finalize is None),
         // [C03.final_cert_signers_are_the_stored_votes]
         forall|i: int| 0 <= i < r.0@.len() ==> (#[trigger] r.0@[i]).kind() == CertKind::Final && final(self).cert_ok(r.0@[i]),
+        has_kind(r.0@, CertKind::Final) <==> r.0@.len() == 1,
 before `self.voted_stakes.finalize += stake;`
         let ghost pre = *self;
         let ghost pv = choose|v: int| 0 <= v < pre.nv() && pre.wf_pend(Pending::Final(v))
@@ -1080,6 +1299,8 @@ after `let votes: Vec<_> = self.votes.final_votes();`
             lemma_positive_sum_nonempty(self.stakes(), self.nv(), p);
             lemma_votes_from_idx(self.nv(), p, get, votes@, fv_signer());
         }
+before `(new_certs, SmallVec::new(), SmallVec::new())`
+        proof { if new_certs@.len() == 1 { assert(new_certs@[0].kind() == CertKind::Final); } }
 @*/
 /*@ extract src/consensus/pool/slot_state.rs :: impl SlotState/fn count_skip_stake
 props C03 C04 C06
@@ -1103,6 +1324,7 @@ ensures
             && old(self).certificates.skip is None),
         // [C03.skip_cert_signers_are_the_stored_votes]
         forall|i: int| 0 <= i < r.0@.len() ==> (#[trigger] r.0@[i]).kind() == CertKind::Skip && final(self).cert_ok(r.0@[i]),
+        has_kind(r.0@, CertKind::Skip) <==> r.0@.len() == 1,
         // [C06.events_only_when_allowed_and_once]
         events_ok(old(self), final(self), r.1@),
 before `if fallback {`
@@ -1145,7 +1367,267 @@ after `let sf_votes = self.votes.skip_fallback_votes();`
             else { lemma_positive_sum_nonempty(self.stakes(), n, self.votes.p_skip_fb()); }
         }
 before `(new_certs, votor_events, blocks_to_repair)`
+        proof { Self::lemma_wf_transfer(&mid, &*self, Pending::Nothing); if new_certs@.len() == 1 { assert(new_certs@[0].kind() == CertKind::Skip); } }
+@*/
+/*@ extract src/consensus/pool/slot_state.rs :: impl SlotState/fn count_notar_fallback_stake
+props C03 C04
+ret r
+requires
+        // [C03.vote_stored_before_counted]
+        exists|v: int| 0 <= v < old(self).nv() && stake.0 == old(self).stakes()[v]
+            && old(self).wf_pend(Pending::NotarFallback(v, *block_hash)) && old(self).votes.notar_fallback@[v]@.contains_key(*block_hash),
+ensures
+        // [C04.counted_once_per_class C03.counted_once_per_class]
+        final(self).wf(),
+        final(self).same_votes(old(self)),
+        final(self).certificates == old(self).certificates,
+        final(self).parents == old(self).parents,
+        final(self).pending_safe_to_notar == old(self).pending_safe_to_notar,
+        final(self).sent_safe_to_notar == old(self).sent_safe_to_notar,
+        final(self).sent_safe_to_skip == old(self).sent_safe_to_skip,
+        r.1@.len() == 0 && r.2@.len() == 0,
+        // [C03.notar_fallback_cert_exactly_when_due]
+        r.0@.len() <= 1,
+        (r.0@.len() == 1) <==> (at_least_pct(final(self).sum(final(self).votes.p_notar(*block_hash)) + final(self).sum(final(self).votes.p_nf(*block_hash)), final(self).total(), 60)
+            && !old(self).has_nf_cert(*block_hash)),
+        // [C03.notar_fallback_cert_signers_are_the_stored_votes]
+        forall|i: int| 0 <= i < r.0@.len() ==> (#[trigger] r.0@[i]).kind() == CertKind::NotarFallback && final(self).cert_ok(r.0@[i])
+            && r.0@[i]->NotarFallback_0.block_hash == *block_hash,
+        has_kind(r.0@, CertKind::NotarFallback) <==> r.0@.len() == 1,
+before `let nf_stake = {`
+        let ghost pre = *self;
+        let ghost pv = choose|v: int| 0 <= v < pre.nv() && stake.0 == pre.stakes()[v]
+            && pre.wf_pend(Pending::NotarFallback(v, *block_hash)) && pre.votes.notar_fallback@[v]@.contains_key(*block_hash);
+        proof { pre.lemma_room_for_pending(Pending::NotarFallback(pv, *block_hash)); }
+before `let notar_stake = self`
+        proof {
+            Self::lemma_wf_after_count(&pre, &*self, Pending::NotarFallback(pv, *block_hash));
+            self.lemma_counted_is_stored();
+            self.lemma_bounds(Pending::Nothing);
+        }
+after `let nf_votes = self.votes.notar_fallback_votes(block_hash);`
+        proof { self.lemma_nf_cert_votes(*block_hash, notar_votes@, nf_votes@); }
+before `(new_certs, SmallVec::new(), SmallVec::new())`
+        proof { if new_certs@.len() == 1 { assert(new_certs@[0].kind() == CertKind::NotarFallback); } }
+@*/
+
+/*@ extract src/consensus/pool/slot_state.rs :: impl SlotState/fn count_notar_stake
+props C03 C04 C06
+prefix #[verifier::rlimit(60)] #[verifier::spinoff_prover]
+ret r
+requires
+        slot == old(self).slot,
+        // [C03.vote_stored_before_counted C06.vote_stored_before_counted]
+        exists|v: int| 0 <= v < old(self).nv() && stake.0 == old(self).stakes()[v]
+            && old(self).wf_pend(Pending::Notar(v))
+            && (old(self).votes.notar@[v] matches Some(x) && x.block_hash == *block_hash),
+ensures
+        // [C04.counted_once_per_class C03.counted_once_per_class]
+        final(self).wf(),
+        final(self).same_votes(old(self)),
+        final(self).certificates == old(self).certificates,
+        final(self).parents == old(self).parents,
+        // [C03.notar_certs_exactly_when_due]
+        kinds_distinct(r.0@),
+        has_kind(r.0@, CertKind::NotarFallback) <==> (at_least_pct(final(self).sum(final(self).votes.p_notar(*block_hash)) + final(self).sum(final(self).votes.p_nf(*block_hash)), final(self).total(), 60)
+            && !old(self).has_nf_cert(*block_hash)),
+        has_kind(r.0@, CertKind::Notar) <==> (at_least_pct(final(self).sum(final(self).votes.p_notar(*block_hash)), final(self).total(), 60)
+            && old(self).certificates.notar is None),
+        has_kind(r.0@, CertKind::FastFinal) <==> (at_least_pct(final(self).sum(final(self).votes.p_notar(*block_hash)), final(self).total(), 80)
+            && old(self).certificates.fast_finalize is None),
+        // [C03.notar_cert_signers_are_the_stored_votes]
+        forall|i: int| 0 <= i < r.0@.len() ==> final(self).cert_ok(#[trigger] r.0@[i]) && r.0@[i].spec_block_hash() == Some(*block_hash)
+            && (r.0@[i].kind() == CertKind::Notar || r.0@[i].kind() == CertKind::NotarFallback || r.0@[i].kind() == CertKind::FastFinal),
+        // [C06.events_only_when_allowed_and_once]
+        events_ok(old(self), final(self), r.1@),
+before `let notar_stake = {`
+        let ghost pre = *self;
+        let ghost pv = choose|v: int| 0 <= v < pre.nv() && stake.0 == pre.stakes()[v]
+            && pre.wf_pend(Pending::Notar(v))
+            && (pre.votes.notar@[v] matches Some(x) && x.block_hash == *block_hash);
+        proof { pre.lemma_room_for_pending(Pending::Notar(pv)); }
+after `self.voted_stakes.top_notar = notar_stake.max(self.voted_stakes.top_notar);`
+        proof {
+            Self::lemma_wf_after_count(&pre, &*self, Pending::Notar(pv));
+            self.lemma_counted_is_stored();
+            self.lemma_bounds(Pending::Nothing);
+        }
+        let ghost mid = *self;
+before `let nf_stake = self`
+        proof { Self::lemma_wf_transfer(&mid, &*self, Pending::Nothing); self.lemma_counted_is_stored(); self.lemma_bounds(Pending::Nothing); }
+        let ghost mid2 = *self;
+after `let nf_votes = self.votes.notar_fallback_votes(block_hash);`
+        proof { self.lemma_nf_cert_votes(*block_hash, notar_votes@, nf_votes@); }
+before `if self.epoch_info.epoch_info().is_quorum(notar_stake) && self.certificates.notar.is_none()`
+        let ghost s1 = new_certs@;
+        proof {
+            assert(s1.len() <= 1);
+            assert(s1.len() == 1 ==> s1[0].kind() == CertKind::NotarFallback);
+        }
+before `if self.epoch_info.epoch_info().is_strong_quorum(notar_stake)`
+        let ghost s2 = new_certs@;
+        proof {
+            assert(s1.len() <= s2.len() <= s1.len() + 1);
+            assert(forall|i: int| 0 <= i < s1.len() ==> s2[i] == s1[i]);
+            assert(s2.len() == s1.len() + 1 ==> s2[s1.len() as int].kind() == CertKind::Notar);
+        }
+before `(new_certs, votor_events, blocks_to_repair)`
+        let ghost s3 = new_certs@;
+        proof {
+            assert(s2.len() <= s3.len() <= s2.len() + 1);
+            assert(forall|i: int| 0 <= i < s2.len() ==> s3[i] == s2[i]);
+            assert(s3.len() == s2.len() + 1 ==> s3[s2.len() as int].kind() == CertKind::FastFinal);
+            if s1.len() == 1 { assert(s3[0].kind() == CertKind::NotarFallback); }
+            if s2.len() == s1.len() + 1 { assert(s3[s1.len() as int].kind() == CertKind::Notar); }
+            assert(has_kind(s3, CertKind::NotarFallback) <==> s1.len() == 1);
+            assert(has_kind(s3, CertKind::Notar) <==> s2.len() == s1.len() + 1);
+            assert(has_kind(s3, CertKind::FastFinal) <==> s3.len() == s2.len() + 1);
+            assert(kinds_distinct(s3));
+        }
+after `let votes = self.votes.notar_votes(block_hash);#0`
+        proof { self.lemma_notar_cert_votes(*block_hash, votes@); }
+after `let votes = self.votes.notar_votes(block_hash);#1`
+        proof { self.lemma_notar_cert_votes(*block_hash, votes@); }
+@*/
+/*@ extract src/consensus/pool/slot_state.rs :: impl SlotState/fn add_vote
+props C03 C04 C06
+prefix #[verifier::rlimit(60)] #[verifier::spinoff_prover]
+ret r
+rewrite[R4] `for hash in self.pending_safe_to_notar.clone() {` => `let mut verif_it = self.pending_safe_to_notar.clone().into_iter(); loop { let hash = match verif_it.next() { Some(x) => x, None => break };`
+requires
+        old(self).wf(),
+        old(self).admissible(vote),
+        voter_stake.0 == old(self).stakes()[vote.spec_signer().0 as int],
+ensures
+        // [C04.counted_once_per_class C03.counted_once_per_class]
+        final(self).wf(),
+        // [C04.accepted_vote_is_stored]
+        final(self).votes.vv(vote.spec_signer().0 as int) == vv_add(old(self).votes.vv(vote.spec_signer().0 as int), vote.spec_kind()),
+        forall|u: int| 0 <= u < old(self).nv() && u != vote.spec_signer().0 ==> #[trigger] final(self).votes.vv(u) == old(self).votes.vv(u),
+        final(self).certificates == old(self).certificates,
+        final(self).parents == old(self).parents,
+        final(self).epoch_info == old(self).epoch_info,
+        final(self).slot == old(self).slot,
+        // [C03.certs_exactly_when_due]
+        kinds_distinct(r.0@),
+        has_kind(r.0@, CertKind::Notar) <==> Self::cert_due(old(self), final(self), vote, CertKind::Notar),
+        has_kind(r.0@, CertKind::NotarFallback) <==> Self::cert_due(old(self), final(self), vote, CertKind::NotarFallback),
+        has_kind(r.0@, CertKind::Skip) <==> Self::cert_due(old(self), final(self), vote, CertKind::Skip),
+        has_kind(r.0@, CertKind::FastFinal) <==> Self::cert_due(old(self), final(self), vote, CertKind::FastFinal),
+        has_kind(r.0@, CertKind::Final) <==> Self::cert_due(old(self), final(self), vote, CertKind::Final),
+        // [C03.cert_signers_are_the_stored_votes]
+        forall|i: int| 0 <= i < r.0@.len() ==> final(self).cert_ok(#[trigger] r.0@[i]),
+        // [C06.events_only_when_allowed_and_once]
+        events_ok(old(self), final(self), r.1@),
+before `let slot = vote.slot();`
+        let ghost pre = *self;
+        let ghost gvote = vote;
+        proof { pre.lemma_bounds(Pending::Nothing); }
+after `self.votes.notar[v] = Some(notar_vote);`
+        proof { Self::lemma_wf_after_store(&pre, &*self, gvote); }
+after `let res = self.votes.notar_fallback[v].insert(block_hash.clone(), nf_vote);`
+        proof { lemma_c04_expand(pre.votes.vv(gvote.spec_signer().0 as int), gvote.spec_kind()); Self::lemma_wf_after_store(&pre, &*self, gvote); }
+before `self.votes.skip[v] = Some(skip_vote);`
+        proof { pre.lemma_room_for_skip_in_nos(gvote); }
+before `self.count_skip_stake(slot, voter_stake, false)`
+        proof { Self::lemma_wf_after_store(&pre, &*self, gvote); }
+after `self.votes.skip_fallback[v] = Some(sf_vote);`
+        proof { Self::lemma_wf_after_store(&pre, &*self, gvote); }
+after `self.votes.finalize[v] = Some(final_vote);`
+        proof { Self::lemma_wf_after_store(&pre, &*self, gvote); }
+before `if voter == self.epoch_info.own_id()`
+        proof {
+            self.lemma_bounds(Pending::Nothing);
+        }
+        let ghost mid = *self;
+loop 0
+        invariant
+            mid.wf(), self.bounds_ok(),
+            self.same_votes(&mid), self.voted_stakes == mid.voted_stakes, self.certificates == mid.certificates,
+            self.parents == mid.parents, self.sent_safe_to_skip == mid.sent_safe_to_skip,
+            slot == self.slot,
+            pre.sent_safe_to_notar@.subset_of(mid.sent_safe_to_notar@),
+            mid.sent_safe_to_notar@.subset_of(self.sent_safe_to_notar@),
+            forall|i: int| 0 <= i < votor_events@.len() ==> s2n_event_ok(pre.sent_safe_to_notar@, &*self, #[trigger] votor_events@[i]) && s2s_event_ok(&pre, &*self, votor_events@[i]),
+            events_distinct(votor_events@),
+        decreases verif_it.rest().len(),
+before `(certs_created, votor_events, blocks_to_repair)`
         proof { Self::lemma_wf_transfer(&mid, &*self, Pending::Nothing); }
+@*/
+/*@ extract src/consensus/pool/slot_state.rs :: impl SlotState/fn notify_parent_known
+props C06
+ensures
+        // [C06.parent_known_recorded]
+        final(self).parents@ == (if old(self).parents@.contains_key(*hash) { old(self).parents@ } else { old(self).parents@.insert(*hash, ParentStatus::Known) }),
+        final(self).votes == old(self).votes,
+        final(self).voted_stakes == old(self).voted_stakes,
+        final(self).certificates == old(self).certificates,
+        final(self).pending_safe_to_notar == old(self).pending_safe_to_notar,
+        final(self).sent_safe_to_notar == old(self).sent_safe_to_notar,
+        final(self).sent_safe_to_skip == old(self).sent_safe_to_skip,
+        final(self).slot == old(self).slot,
+        final(self).epoch_info == old(self).epoch_info,
+closure 0
+        ret s: ParentStatus
+        ensures s == ParentStatus::Known
+@*/
+
+/*@ extract src/consensus/pool/slot_state.rs :: impl SlotState/fn notify_parent_certified
+props C06
+ret r
+requires
+        old(self).wf(),
+        // [C06.parent_registered_before_certified]
+        old(self).parents@.contains_key(hash),
+ensures
+        final(self).parents@ == old(self).parents@.insert(hash, ParentStatus::Certified),
+        final(self).votes == old(self).votes,
+        final(self).voted_stakes == old(self).voted_stakes,
+        final(self).certificates == old(self).certificates,
+        final(self).sent_safe_to_skip == old(self).sent_safe_to_skip,
+        final(self).slot == old(self).slot,
+        final(self).epoch_info == old(self).epoch_info,
+        old(self).sent_safe_to_notar@.subset_of(final(self).sent_safe_to_notar@),
+        // [C06.events_only_when_allowed_and_once]
+        r matches Some(Either::Left(e)) ==> e == PoolEvent::SafeToNotar((final(self).slot, hash))
+            && !old(self).sent_safe_to_notar@.contains(hash) && final(self).sent_safe_to_notar@.contains(hash) && final(self).spec_s2n(hash),
+        // [C06.s2n_as_soon_as_parent_certified]
+        (final(self).spec_s2n(hash) && !old(self).sent_safe_to_notar@.contains(hash)) ==> r matches Some(Either::Left(_)),
+        r matches Some(Either::Right(id)) ==> id == (final(self).slot, hash),
+before `let Some(parent_info) = self.parents.get_mut(&hash)`
+        proof { self.lemma_bounds(Pending::Nothing); }
+@*/
+
+/*@ extract src/consensus/pool/slot_state.rs :: impl SlotState/fn add_cert
+props C03 C06
+ensures
+        // [C03.cert_recorded_at_most_once_per_type]
+        match cert {
+            Cert::Notar(n) => final(self).certificates.notar == Some(n) && final(self).certificates.notar_fallback == old(self).certificates.notar_fallback
+                && final(self).certificates.skip == old(self).certificates.skip && final(self).certificates.fast_finalize == old(self).certificates.fast_finalize
+                && final(self).certificates.finalize == old(self).certificates.finalize,
+            Cert::NotarFallback(n) => final(self).certificates.notar_fallback@ == (if old(self).has_nf_cert(n.block_hash) { old(self).certificates.notar_fallback@ } else { old(self).certificates.notar_fallback@.push(n) })
+                && final(self).certificates.notar == old(self).certificates.notar
+                && final(self).certificates.skip == old(self).certificates.skip && final(self).certificates.fast_finalize == old(self).certificates.fast_finalize
+                && final(self).certificates.finalize == old(self).certificates.finalize,
+            Cert::Skip(n) => final(self).certificates.skip == Some(n) && final(self).certificates.notar_fallback == old(self).certificates.notar_fallback
+                && final(self).certificates.notar == old(self).certificates.notar && final(self).certificates.fast_finalize == old(self).certificates.fast_finalize
+                && final(self).certificates.finalize == old(self).certificates.finalize,
+            Cert::FastFinal(n) => final(self).certificates.fast_finalize == Some(n) && final(self).certificates.notar_fallback == old(self).certificates.notar_fallback
+                && final(self).certificates.skip == old(self).certificates.skip && final(self).certificates.notar == old(self).certificates.notar
+                && final(self).certificates.finalize == old(self).certificates.finalize,
+            Cert::Final(n) => final(self).certificates.finalize == Some(n) && final(self).certificates.notar_fallback == old(self).certificates.notar_fallback
+                && final(self).certificates.skip == old(self).certificates.skip && final(self).certificates.fast_finalize == old(self).certificates.fast_finalize
+                && final(self).certificates.notar == old(self).certificates.notar,
+        },
+        final(self).votes == old(self).votes,
+        final(self).voted_stakes == old(self).voted_stakes,
+        final(self).parents == old(self).parents,
+        final(self).pending_safe_to_notar == old(self).pending_safe_to_notar,
+        final(self).sent_safe_to_notar == old(self).sent_safe_to_notar,
+        final(self).sent_safe_to_skip == old(self).sent_safe_to_skip,
+        final(self).slot == old(self).slot,
+        final(self).epoch_info == old(self).epoch_info,
 @*/
 }
 
